@@ -34,7 +34,8 @@ StatsOn(w) == w.client_stats \in {"on", "yes"}
 MustRefuse(w) ==
     \/ ~Written(w, "port")
     \/ \E k \in RangeDocumented : Written(w, k) /\ ~InDocRange(k, w[k])
-    \/ w.seed # "ok"                                  \* missing, wrong length, not hex
+    \/ w.seed \notin {"ok", "digits"}                  \* missing, wrong length, not hex ("digits": a valid seed whose 64
+                                                      \* hex digits all happen to be decimal)
     \/ w.interface # "ok"                             \* missing
     \/ w.unknown_key                                  \* file only
 
